@@ -46,6 +46,7 @@ H, G, C, T = "armi/reactor/grids/hexagonal.py::HexGrid.", "armi/utils/hexagon.py
     "armi/reactor/grids/cartesian.py::CartesianGrid.", "armi/reactor/grids/thetarz.py::ThetaRZGrid."
 U, N, X = "armi/utils/__init__.py::", "armi/nucDirectory/nuclideBases.py::NuclideBase.", \
     "armi/physics/neutronics/crossSectionGroupManager.py::"
+CC, DB = "armi/nuclearDataIO/cccc/cccc.py::", "armi/bookkeeping/db/database.py::"
 M = "ArmiVerif.Props.SrcTie."
 
 # function key -> (equivalence module, imports of other Eq modules it needs)
@@ -69,6 +70,10 @@ EQ = {
     U + "getPreviousTimeNode": (M + "EqPreviousTimeNode", []),
     U + "getCycleNodeFromCumulativeNode": (M + "EqCycleNodeFromCumulativeNode", [M + "EqNodesPerCycle"]),
     U + "getCycleNodeFromCumulativeStep": (M + "EqCycleNodeFromCumulativeStep", []),
+    X + "getXSTypeNumberFromLabel": (M + "EqXsNumberFromLabel", []),
+    X + "getXSTypeLabelFromNumber": (M + "EqXsLabelFromNumber", [M + "EqXsNumberFromLabel"]),
+    CC + "getBlockBandwidth": (M + "EqBlockBandwidth", []),
+    DB + "getH5GroupName": (M + "EqH5GroupName", []),
     N + "getMcnpId": (M + "EqMcnpId", []),
     N + "getAAAZZZSId": (M + "EqAaazzzsId", []),
 }
@@ -79,7 +84,6 @@ NO_EQ = {
     G + "numRingsToHoldNumCells", G + "getIndexOfRotatedCell", H + "getMinimumRings", H + "rotateIndex",
     C + "getRingPos", C + "getMinimumRings",
     N + "_createLabel",
-    X + "getXSTypeNumberFromLabel", X + "getXSTypeLabelFromNumber",
 }
 # corollary module -> functions whose equivalence it uses
 COR = {
@@ -92,6 +96,9 @@ COR = {
     M + "CorNodes": [U + "getCumulativeNodeNum", U + "getPreviousTimeNode"],
     M + "CorNodesInverse": [U + "getCumulativeNodeNum", U + "getCycleNodeFromCumulativeNode", U + "getCycleNodeFromCumulativeStep"],
     M + "CorMcnpId": [N + "getMcnpId"],
+    M + "CorBlockBandwidth": [CC + "getBlockBandwidth"],
+    M + "CorH5GroupName": [DB + "getH5GroupName"],
+    M + "CorXsLabels": [X + "getXSTypeNumberFromLabel", X + "getXSTypeLabelFromNumber"],
 }
 # property -> functions tied / corollary modules
 TIES = {
@@ -104,11 +111,14 @@ TIES = {
     "C08": {"functions": [H + "_getSymmetricIdenticalsThird", H + "overlapsWhichSymmetryLine", H + "isInFirstThird",
                           H + "indicesToRingPos", H + "rotateIndex", G + "getIndexOfRotatedCell"],
             "corollaries": [M + "CorHexSym"]},
+    "C09": {"functions": [CC + "getBlockBandwidth"], "corollaries": [M + "CorBlockBandwidth"]},
+    "C04": {"functions": [DB + "getH5GroupName"], "corollaries": [M + "CorH5GroupName"]},
+    "C06": {"functions": [DB + "getH5GroupName"], "corollaries": [M + "CorH5GroupName"]},
     "C15": {"functions": [U + "getNodesPerCycle", U + "getCumulativeNodeNum", U + "getPreviousTimeNode",
                           U + "getCycleNodeFromCumulativeNode", U + "getCycleNodeFromCumulativeStep"],
             "corollaries": [M + "CorNodes", M + "CorNodesInverse"]},
     "C19": {"functions": [N + "getMcnpId", N + "getAAAZZZSId", N + "_createLabel"], "corollaries": [M + "CorMcnpId"]},
-    "C20": {"functions": [X + "getXSTypeNumberFromLabel", X + "getXSTypeLabelFromNumber"], "corollaries": []},
+    "C20": {"functions": [X + "getXSTypeNumberFromLabel", X + "getXSTypeLabelFromNumber"], "corollaries": [M + "CorXsLabels"]},
 }
 GEN_MODULE = "ArmiVerif.Gen.Src"
 
@@ -160,6 +170,10 @@ def canon(v, t):
         if type(v) is not bool:
             raise TypeError(f"bool expected, got {type(v).__name__} {v!r}")
         return "T" if v else "F"
+    if k == "str":
+        if type(v) is not str:
+            raise TypeError(f"str expected, got {type(v).__name__} {v!r}")
+        return "[" + ",".join(str(ord(c)) for c in v) + "]"
     if k == "tuple":
         if not isinstance(v, tuple) or len(v) != len(t[1]):
             raise TypeError(f"{len(t[1])}-tuple expected, got {v!r}")
@@ -240,6 +254,8 @@ class PyFn:
                 vals[pn] = bool(flat[n]); n += 1
             elif t == py2lean.LIST(py2lean.INT):
                 vals[pn] = list(flat[n]); n += 1
+            elif t == py2lean.STR:
+                vals[pn] = "".join(chr(c) for c in flat[n]); n += 1
             else:
                 k = len(t[1])
                 vals[pn] = tuple(bool(x) if tt == py2lean.BOOL else x for x, tt in zip(flat[n:n + k], t[1])); n += k
@@ -348,6 +364,15 @@ def direct_fns():
     D["getNodesPerCycle"] = with_steps(lambda cs: autils.getNodesPerCycle(cs))
     D["getCycleNodeFromCumulativeStep"] = with_steps(lambda t, cs: autils.getCycleNodeFromCumulativeStep(t, cs))
     from armi.nucDirectory import nuclideBases as nb
+    from armi.physics.neutronics import crossSectionGroupManager as xsgm
+    from armi.nuclearDataIO.cccc import cccc as ccccmod
+    from armi.bookkeeping.db import database as dbmod
+
+    D["getBlockBandwidth"] = lambda m, nintj, nblok: ccccmod.getBlockBandwidth(m, nintj, nblok)
+    D["getH5GroupName"] = lambda c, n, label: dbmod.getH5GroupName(c, n, label)
+
+    D["getXSTypeNumberFromLabel"] = lambda label: xsgm.getXSTypeNumberFromLabel(label)
+    D["getXSTypeLabelFromNumber"] = lambda n: xsgm.getXSTypeLabelFromNumber(n)
 
     D["getMcnpId"] = lambda z, a, st: nb.NuclideBase.getMcnpId(NS(z=z, a=a, state=st))
     D["getAAAZZZSId"] = lambda z, a, st: nb.NuclideBase.getAAAZZZSId(NS(z=z, a=a, state=st))
@@ -370,6 +395,15 @@ def req_line(name, flat):
     return name + "".join(" [" + ",".join(str(int(y)) for y in x) + "]" if isinstance(x, (list, tuple)) else f" {int(x)}" for x in flat)
 
 
+def extra_inputs(key):
+    """inputs of the property's own domain that the generic generator would not hit"""
+    if key == X + "getXSTypeLabelFromNumber":
+        letters = [ord(c) for c in "ABCDEFGHIJKLMNOPQRSTUVWXYZabcdefghijklmnopqrstuvwxyz"]
+        nums = [int(f"{a:02d}{b:02d}") for a in letters for b in letters]
+        return [(n,) for n in list(range(0, 1300)) + nums + [12312, 99999, 100000, 1231230, 6512345]]
+    return []
+
+
 def gen_inputs(res, rng, quick=True, loop=False):
     """exhaustive small domain + seeded random magnitudes to 2^62 + +-1 around the literals of the source;
     a list parameter is one slot holding a tuple of ints"""
@@ -384,9 +418,20 @@ def gen_inputs(res, rng, quick=True, loop=False):
     def small_list():
         return tuple(rng.choice((0, 1, 2, 3, 5, rng.randint(-2, 9))) for _ in range(rng.randint(0, 5)))
 
+    ADM = [ord(c) for c in "ABCDEFGHIJKLMNOPQRSTUVWXYZabcdefghijklmnopqrstuvwxyz"]
+    ODD = [ord(c) for c in "09 _-{@[`"] + [1, 7, 200, 1000, 65536, 1114111]
+
+    def small_str():
+        r = rng.random()
+        if r < 0.5:
+            return tuple(rng.choice(ADM) for _ in range(rng.randint(1, 2)))
+        return tuple(rng.choice(ADM + ODD) for _ in range(rng.randint(0, 4)))
+
     def slot(k, mode):
         if k == py2lean.BOOL:
             return rng.randint(0, 1)
+        if k == py2lean.STR:
+            return small_str()
         if k == LST:
             return small_list() if mode != "big" or rng.random() < 0.5 else tuple(abs(_big(rng)) for _ in range(rng.randint(1, 4)))   # list ELEMENTS may be huge: they are never iteration counts here... unless the source says so (timeouts below)
         if mode == "big":
@@ -397,7 +442,14 @@ def gen_inputs(res, rng, quick=True, loop=False):
         return rng.randint(-3, 3)
 
     out = []
-    if LST not in kinds:
+    if py2lean.STR in kinds:
+        # every admissible one- and two-character label (the property's domain) x small ints for the other slots
+        labels = [()] + [(a,) for a in ADM + ODD] + [(a, b) for a in ADM for b in ADM]
+        doms = [labels if k == py2lean.STR else ((0, 1) if k == py2lean.BOOL else range(-1, 3)) for k in kinds]
+        out = list(itertools.product(*doms))
+        if len(out) > 8000:
+            out = rng.sample(out, 8000)
+    elif LST not in kinds:
         nint = sum(1 for k in kinds if k == py2lean.INT)
         span = {0: 0, 1: 40, 2: 12, 3: 5, 4: 3}.get(nint, 2)
         doms = [(0, 1) if k == py2lean.BOOL else range(-span, span + 1) for k in kinds]
@@ -664,6 +716,64 @@ class Clauses:
                 break
         return out
 
+    # ---- C09 block bandwidths / C04, C06 statepoint group names
+    def bands(self, nintj, nblok):
+        """the column ranges of the blocks 1..nblok, end to end, are exactly the columns 0..nintj-1"""
+        nxt, out = 0, []
+        case = {"nintj": nintj, "nblok": nblok}
+        for m in range(1, nblok + 1):
+            jl, ju = self.call("getBlockBandwidth", m, nintj, nblok)
+            if ju < jl:
+                continue            # an empty trailing block
+            if jl != nxt:
+                return [("srctie-band-partition", "blocks tile the columns 0..nintj-1 without gap or overlap", dict(case, m=m), [jl, ju], nxt)]
+            nxt = ju + 1
+        if nxt != nintj:
+            out.append(("srctie-band-partition", "blocks tile the columns 0..nintj-1 without gap or overlap", case, nxt, nintj))
+        return out
+
+    def groupnames(self, labels):
+        import re as _re
+        pat = _re.compile(r"^c(\d\d)n(\d\d).*$")
+        seen, out = {}, []
+        for c in range(100):
+            for n in range(100):
+                for lab in labels:
+                    name = self.call("getH5GroupName", c, n, lab)
+                    case = {"cycle": c, "node": n, "label": lab}
+                    m = pat.match(name) if isinstance(name, str) else None
+                    if not m or (int(m.group(1)), int(m.group(2))) != (c, n) or not name.endswith(lab):
+                        out.append(("srctie-group-name-parse", "the group name cXXnYY<label> gives back cycle, node and label", case, name, None))
+                    if name in seen:
+                        out.append(("srctie-group-name-injective", "distinct (cycle, node, label) get distinct group names",
+                                    {"first": seen[name], "second": case}, name, None))
+                    seen[name] = case
+                    if len(out) > 4:
+                        return out
+        return out
+
+    # ---- C20 type label <-> number
+    def xslabels(self, _unused=None):
+        """every admissible label (one or two characters A-Z a-z) converts to its number and back, without collision"""
+        letters = "ABCDEFGHIJKLMNOPQRSTUVWXYZabcdefghijklmnopqrstuvwxyz"
+        labels = list(letters) + [a + b for a in letters for b in letters]
+        seen, out = {}, []
+        for lab in labels:
+            try:
+                n = self.call("getXSTypeNumberFromLabel", lab)
+                back = self.call("getXSTypeLabelFromNumber", n)
+            except Exception as e:
+                out.append(("srctie-xs-label-roundtrip", "an admissible label converts to its number and back", {"label": lab}, repr(e), lab))
+                continue
+            if back != lab:
+                out.append(("srctie-xs-label-roundtrip", "an admissible label converts to its number and back", {"label": lab}, [n, back], lab))
+            if n in seen:
+                out.append(("srctie-xs-label-collision", "no two admissible labels share a number", {"labels": [seen[n], lab]}, n, None))
+            seen[n] = lab
+            if len(out) > 6:
+                break
+        return out
+
     # ---- C19 structured identifiers
     def mcnp(self, z, a0):
         """within one element, over a window of 100 mass numbers x states 0..3, the MCNP ids are distinct, start with
@@ -755,6 +865,8 @@ SHORT = {
     U + "getNodesPerCycle": "getNodesPerCycle", U + "getCumulativeNodeNum": "getCumulativeNodeNum",
     U + "getPreviousTimeNode": "getPreviousTimeNode", U + "getCycleNodeFromCumulativeNode": "getCycleNodeFromCumulativeNode",
     U + "getCycleNodeFromCumulativeStep": "getCycleNodeFromCumulativeStep", N + "getMcnpId": "getMcnpId", N + "getAAAZZZSId": "getAAAZZZSId",
+    X + "getXSTypeNumberFromLabel": "getXSTypeNumberFromLabel", X + "getXSTypeLabelFromNumber": "getXSTypeLabelFromNumber",
+    CC + "getBlockBandwidth": "getBlockBandwidth", DB + "getH5GroupName": "getH5GroupName",
 }
 
 
@@ -836,6 +948,16 @@ def clause_inputs(c, key, res, rng, thorough):
                     acc += b + 1
                 return sorted(x for x in edges | {rng.randrange(m) for _ in range(20)} if 0 <= x < m)
             yield c.history, (bs, sample)
+    if key == CC + "getBlockBandwidth" and "getBlockBandwidth" in P:
+        for nintj in range(1, 80):
+            for nblok in range(1, 16):
+                yield c.bands, (nintj, nblok)
+        for _ in range(600):
+            yield c.bands, (rng.randint(1, 4000), rng.randint(1, 60))
+    if key == DB + "getH5GroupName" and "getH5GroupName" in P:
+        yield c.groupnames, (["", "EOL", "0", "n00", "c01n01"],)
+    if key in (X + "getXSTypeNumberFromLabel", X + "getXSTypeLabelFromNumber") and "getXSTypeNumberFromLabel" in P:
+        yield c.xslabels, (None,)
     if key == N + "getMcnpId" and "getMcnpId" in P:
         for z in list(range(1, 119)):
             for a0 in (1, 60, 150, 200, 242 - 50, 299):
@@ -895,7 +1017,7 @@ def extended_search(ctx, key, res, P, PF, why):
     ndiff, first = 0, None
     pf = PF.get(key)
     if pf is not None:
-        inputs = gen_inputs(res, rng, quick=False, loop=bool(res.get("has_loop")))
+        inputs = gen_inputs(res, rng, quick=False, loop=bool(res.get("has_loop"))) + extra_inputs(key)
         reqs = [req_line(res["lean_name"], flat) for flat in inputs]
         try:
             model = common.lean_run("SrcModel", reqs, timeout=150)
@@ -996,7 +1118,7 @@ def _run(ctx, prop):
         pf = PyFn(by[k], tgt)
         PF[k] = pf
         loopy = any(by[d].get("has_loop") for d in trans_deps(by, k))
-        fns.append((pf, gen_inputs(by[k], vrng, quick=not ctx.thorough, loop=loopy)))
+        fns.append((pf, gen_inputs(by[k], vrng, quick=not ctx.thorough, loop=loopy) + extra_inputs(k)))
     if modules or fns:
         out, failed, lean_lines, changed, okmods, ar = build_and_validate(ctx, text, modules, fns)
     else:   # nothing of this property is inside the subset: nothing to build, Gen/Src.lean is left alone
@@ -1004,6 +1126,7 @@ def _run(ctx, prop):
     # 3. translator validation
     pos, nval = 0, 0
     for pf, inputs in fns:
+      with common.quiet():
         for flat in inputs:
             lean = pf.lean_view(lean_lines[pos]); pos += 1
             try:
@@ -1149,6 +1272,12 @@ def replay(ctx, payload):
             fails = c.third(*g("i", "j"))
         elif key == "srctie-symmetry-line-class":
             fails = c.line(*g("i", "j"))
+        elif key == "srctie-band-partition":
+            fails = c.bands(case["nintj"], case["nblok"])
+        elif key in ("srctie-group-name-parse", "srctie-group-name-injective"):
+            fails = c.groupnames(["", "EOL", "0", "n00", "c01n01"])
+        elif key in ("srctie-xs-label-roundtrip", "srctie-xs-label-collision"):
+            fails = c.xslabels()
         elif key == "srctie-mcnp-encodes-z":
             fails = c.mcnp(case["z"], case["a"])
         elif key == "srctie-mcnp-injective":
